@@ -10,7 +10,8 @@ Rules (DESIGN.md section 6, C09):
  1. parameters the docstring types as int/float/bool/str are values without identity (Scalar);
  2. parameters absent from the docstring's `Args:` are bound to their default, branches on them are folded; every
     documented bool flag a function tests is specialised (one variant per combination); call sites select variants;
- 3. in the true branch of `_is_num(x)`, `isinstance(x, (int, float))`, `x is None`, x is Scalar;
+ 3. in the true branch of `_is_num(x)`, `isinstance(x, (int, float))`, `x is None`, x is Scalar; for `_is_num` this is
+    granted only while the source of utils._is_num is `return isinstance(A, <immutable number types>)`;
  4. kinds: a store into a NumPy array copies data (no containment), a store into a list / dict / object records
     containment; `list + list`, `list * k` build a list holding the operands' elements, array arithmetic is fresh;
  5. (withdrawn) every loop may run zero times: after a loop a variable is the join of 'loop skipped' and 'loop ran', so
@@ -470,7 +471,8 @@ class Tr:
             fn = ast.unparse(t.func)
             nm = t.args[0].id
             if fn in ('teneva._is_num', '_is_num') and len(t.args) == 1:
-                return {nm: 'scalar'}
+                # rule 3 is granted only while the helper really tests for IMMUTABLE numbers (checked on its source)
+                return {nm: 'scalar'} if self.gen.is_num_immutable() else {}
             if fn == 'isinstance' and len(t.args) == 2:
                 ty = ast.unparse(t.args[1])
                 tys = set(re.findall(r'[\w\.]+', ty))
@@ -1562,6 +1564,31 @@ class Gen:
         self.notes = []
         self.uncovered = []
         self.used = set()       # (class, dotted name) of every 'fresh' / 'no identity' table entry the translation relied on
+
+    IMMUTABLE_NUMBER_TYPES = {'int', 'float', 'bool', 'complex', 'np.number', 'np.integer', 'np.floating', 'np.int32',
+                              'np.int64', 'np.float32', 'np.float64', 'np.bool_', 'np.generic'}
+
+    def is_num_immutable(self):
+        """does utils._is_num(A) accept only values without mutable identity?  Its body must be the single statement
+        `return isinstance(A, <immutable number types>)` (Python numbers, NumPy scalars); anything else -- e.g. accepting a
+        0-d ndarray, which is mutable -- withdraws the refinement 'x is a Scalar in the true branch of _is_num(x)'."""
+        if not hasattr(self, '_is_num_ok'):
+            ok = False
+            info = self.pkg.funcs.get('utils._is_num')
+            if info is not None:
+                body = [st for st in info.node.body if not (isinstance(st, ast.Expr) and isinstance(st.value, ast.Constant))]
+                if len(body) == 1 and isinstance(body[0], ast.Return) and isinstance(body[0].value, ast.Call):
+                    c = body[0].value
+                    if ast.unparse(c.func) == 'isinstance' and len(c.args) == 2 and isinstance(c.args[0], ast.Name) \
+                            and c.args[0].id == info.params[0]:
+                        ty = c.args[1]
+                        names = [ast.unparse(x) for x in (ty.elts if isinstance(ty, ast.Tuple) else [ty])]
+                        ok = bool(names) and set(names) <= self.IMMUTABLE_NUMBER_TYPES
+            self._is_num_ok = ok
+            if not ok:
+                self.notes.append('utils._is_num is not `return isinstance(A, <immutable number types>)`: rule 3 withdrawn '
+                                  'for _is_num(x) (a value it accepts may be a mutable 0-d ndarray)')
+        return self._is_num_ok
 
     # -- variants ---------------------------------------------------------------------------------------------------
     def request(self, key):
